@@ -77,14 +77,26 @@ def mkobj(c):
     return cls(**kwargs)
 
 
-def mkgrid(cg):
-    return Grid([[mkobj(c) for c in row] for row in cg])
+def mkgrid(cg, share=False):
+    if not share:
+        return Grid([[mkobj(c) for c in row] for row in cg])
+    # equal objects without mutable state of their own (no status, no content) are ONE python object placed in several cells
+    pool = {}
+
+    def get(c):
+        cls, names = _ctor(c[0])
+        if 'state' in names or 'content' in names:
+            return mkobj(c)
+        if c not in pool:
+            pool[c] = mkobj(c)
+        return pool[c]
+    return Grid([[get(c) for c in row] for row in cg])
 
 
-def mkstate(cs):
+def mkstate(cs, share=False):
     cg, (y, x), o, held = cs
     h = mkobj(held)
-    return State(mkgrid(cg), Agent(Position(y, x), Orientation(o), h))
+    return State(mkgrid(cg, share), Agent(Position(y, x), Orientation(o), h))
 
 
 # ---- encoders (canonical form -> ints) ----
